@@ -761,6 +761,22 @@ func (gs *GossipSubRouter) OnClosedIncomingStream(pid peer.ID, proto protocol.ID
 	// The extensions state records every peer on its first RPC, whatever
 	// protocol its stream speaks, so it has to be cleared for every peer.
 	gs.extensions.OnClosedIncomingStream(pid, proto)
+
+	// A peer whose inbound stream outlived our outbound stream to it may have
+	// been grafted (or selected for fanout) in the meantime. Mesh and fanout
+	// members are otherwise only removed when the outbound stream closes, which
+	// has already happened, so they have to be removed here.
+	if _, ok := gs.peers[pid]; !ok {
+		for topic, peers := range gs.mesh {
+			if _, inMesh := peers[pid]; inMesh {
+				gs.tracer.Prune(pid, topic)
+				delete(peers, pid)
+			}
+		}
+		for _, peers := range gs.fanout {
+			delete(peers, pid)
+		}
+	}
 }
 
 func (gs *GossipSubRouter) OnNewOutboundStream(p peer.ID, proto protocol.ID, helloPacket *RPC) *RPC {
